@@ -359,9 +359,9 @@ func (w *world) refHolder(id, nops int) {
 	}
 }
 
-func (w *world) ctxChanger(nops int) {
+func (w *world) ctxStep(i int) {
 	c := w.c
-	for i := 0; i < nops && !c.Failed(); i++ {
+	{
 		w.maybeGate()
 		if c.S.PlanP(700) {
 			tag := len(w.ctxChangeInv) + 100
@@ -639,7 +639,7 @@ func run(c *core.Ctx) {
 		tasks = append(tasks, c.Actor("holder", func() { w.refHolder(id, n) }))
 	}
 	if n := c.IntRange(0, maxops); n > 0 {
-		tasks = append(tasks, c.Actor("ctx-changer", func() { w.ctxChanger(n) }))
+		tasks = append(tasks, c.RelayActor("ctx-changer", n, w.ctxStep)...)
 	}
 	if n := c.IntRange(0, 3); n > 0 {
 		tasks = append(tasks, c.Actor("invalidator", func() { w.invalidator(n) }))
